@@ -219,7 +219,10 @@ void harness(void)
 #endif
     } else if (v_n && !v_val) {
         /* C11: on n > dmax the whole dmax is filled and the error is returned */
-        CHECK(inside_d || arena[k] == old_k, "C01: byte outside dest[0..dmax) modified");
+        if (IN.bos_known && k >= doff)
+            CHECK(inside_d || arena[k] == old_k, "C01: byte beyond the declared dmax (inside the known object) modified: dmax := destbos");
+        else
+            CHECK(inside_d || arena[k] == old_k, "C01: byte outside dest[0..dmax) modified");
     }
     CANARY(rc != EOK, "success reachable");
     CANARY(rc != ESNOSPC, "n > dmax reachable");
